@@ -8,15 +8,21 @@ def parseBeh : String → Option Beh
   | "pass" => some .pass | "replace" => some .replace | "drop" => some .drop | "err" => some .err | "errev" => some .err
   | _ => none
 
+/-- `invalid…`: anything that is not exactly one of the two policy constants (another word, the right
+word in the wrong case, the empty string, a trailing blank) -/
 def parsePolOpt : String → Option PolOpt
-  | "allow" => some ⟨true, .allow⟩ | "deny" => some ⟨true, .deny⟩ | "invalid" => some ⟨true, .invalid⟩
-  | "xallow" => some ⟨false, .allow⟩ | "xdeny" => some ⟨false, .deny⟩ | "xinvalid" => some ⟨false, .invalid⟩
+  | "allow" => some ⟨true, .allow⟩ | "deny" => some ⟨true, .deny⟩
+  | "xallow" => some ⟨false, .allow⟩ | "xdeny" => some ⟨false, .deny⟩
   | "nil" => some ⟨true, .dflt⟩
-  | _ => none
+  | s =>
+    if s.startsWith "invalid" then some ⟨true, .invalid⟩
+    else if s.startsWith "xinvalid" then some ⟨false, .invalid⟩
+    else none
 
 /-- the option list of one call: `dflt` (no option) or options joined by `+` -/
 def parsePol (s : String) : Option Pol :=
   if s = "dflt" then some .dflt
+  else if s.startsWith "invalid" && !s.contains '+' then some .invalid
   else (s.splitOn "+").mapM parsePolOpt |>.map effPol
 
 def errName : Err → String
